@@ -33,6 +33,14 @@ def matrix(tier, rnd):
             for pending in pend:
                 add(P.lifecycle_scenario(0, cause, point, pending, after_api=False))
     add(P.lifecycle_scenario(0, "cancel", "before-run", "none"))
+    add(P.lifecycle_scenario(0, "kill", "before-run", "none"))
+    # the loop stays busy for 300 ms after the cause was issued (a request that gives up waiting for the loop is lost)
+    for cause in ("quit", "quitapi", "interrupt", "readerr", "cmdpanic"):
+        for point in ("update", "view", "filter"):
+            x = P.lifecycle_scenario(0, cause, point, "none", hold_us=300000)
+            if x:
+                x[1]["pending"] = "held-300ms"
+                add(x)
     for cause in ("quit", "kill", "cancel", "interrupt"):
         for point in ("idle", "update"):
             add(P.lifecycle_scenario(0, cause, point, "flood"))      # 300 commands that never return are in flight
